@@ -253,6 +253,14 @@ def proc_syscall(pid):
         return None
 
 
+def proc_syscall_of_task(pid, tid):
+    try:
+        with open("/proc/%d/task/%d/syscall" % (pid, tid)) as f:
+            return f.read().split()
+    except OSError:
+        return None
+
+
 def proc_state(pid):
     try:
         with open("/proc/%d/stat" % pid) as f:
@@ -385,6 +393,8 @@ class StallMonitor(threading.Thread):
         self.grace = grace
         self.period = period
         self.state = {}
+        self.main_tid = threading.main_thread().native_id
+        self.wait_key, self.wait_hits = None, 0
 
     def run(self):
         while True:
@@ -394,6 +404,41 @@ class StallMonitor(threading.Thread):
                     self.sample(tr)
                 except Exception:
                     pass
+            try:
+                self.check_waitpid()
+            except Exception:
+                pass
+
+    def check_waitpid(self):
+        """pkgcore's non-forced shutdown_processor() waits for the daemon's exit without having told it to exit when
+        the liveness probe before it went unanswered; an idle daemon then never exits and the harness would hang in
+        waitpid() until the watchdog.  Not a read/read wait (outside C35's wording): counted, and the daemon's group
+        is killed so that the run goes on."""
+        sc = proc_syscall_of_task(os.getpid(), self.main_tid)
+        key = None
+        if sc and sc[0] == SYS_WAIT4:
+            raw = int(sc[1], 16) & 0xFFFFFFFF          # pid_t is a 32-bit int in the first argument register
+            waited = raw - (1 << 32) if raw >= (1 << 31) else raw
+            if waited < -1:
+                pgid = -waited
+                ebp = None
+                for tr in list(self.registry):
+                    e = getattr(tr, "ebp_ref", lambda: None)()
+                    if e is not None and e.pid == pgid:
+                        ebp = e
+                if ebp is not None and proc_state(pgid) not in (None, "Z", "X") and not daemon_busy(pgid, ebp):
+                    key = pgid
+        if key is not None and key == self.wait_key:
+            self.wait_hits += 1
+        else:
+            self.wait_key, self.wait_hits = key, (1 if key is not None else 0)
+        if key is not None and self.wait_hits >= 8:     # ~4 s of an idle daemon being waited for
+            OBSERVED["python_waitpid_on_idle_daemon"] = OBSERVED.get("python_waitpid_on_idle_daemon", 0) + 1
+            self.wait_key, self.wait_hits = None, 0
+            try:
+                os.killpg(key, signal.SIGKILL)
+            except OSError:
+                pass
 
     def sample(self, tr):
         ebp = getattr(tr, "ebp_ref", lambda: None)()
